@@ -547,3 +547,58 @@ Proof.
   exists (mkbatch [mkprop 0 (Some 18446744073709551615) false] 99). split; [vm_compute; auto|].
   vm_compute. discriminate.
 Qed.
+
+(* ---- histories on one long-lived Executor (round 5) ---- *)
+
+Lemma history_ok_model cap tg ds :
+  history_ok cap tg ds (map (option_map (map obs_of)) (run_history cap tg ds)) = true.
+Proof.
+  induction ds as [|d ds IH]; cbn [run_history map history_ok]; [reflexivity|].
+  rewrite spec_ok_r_model. exact IH.
+Qed.
+
+Lemma history_ok_nth cap tg ds : forall rs,
+  history_ok cap tg ds rs = true ->
+  List.length rs = List.length ds /\
+  forall i d r, nth_error ds i = Some d -> nth_error rs i = Some r -> spec_ok_r cap tg (fst d) (snd d) r = true.
+Proof.
+  induction ds as [|d0 ds IH]; intros [|r0 rs] H; cbn [history_ok] in H; try discriminate.
+  - split; [reflexivity|]. intros [|i] d r Hd; discriminate.
+  - apply andb_true_iff in H as [H0 Hr]. destruct (IH rs Hr) as [Hl Hn]. split; [cbn; rewrite Hl; reflexivity|].
+    intros [|i] d r Hd Hrr; cbn in Hd, Hrr.
+    + inversion Hd; inversion Hrr; subst. exact H0.
+    + eapply Hn; eassumption.
+Qed.
+
+(* what a delivery gets does not depend on the deliveries before or after it *)
+Lemma run_history_independent cap tg pre d post :
+  nth_error (run_history cap tg (pre ++ d :: post)) (List.length pre) = Some (batches_r cap tg (fst d) (snd d)).
+Proof.
+  unfold run_history. rewrite map_app. rewrite nth_error_app2 by (rewrite map_length; apply Nat.le_refl).
+  rewrite map_length, Nat.sub_diag. reflexivity.
+Qed.
+
+Lemma run_history_partition cap tg ds i d bs :
+  nth_error ds i = Some d -> nth_error (run_history cap tg ds) i = Some (Some bs) ->
+  List.concat (map members bs) = pending (fst d).
+Proof.
+  intros Hd Hr. unfold run_history in Hr.
+  rewrite (map_nth_error (fun d => batches_r cap tg (fst d) (snd d)) _ _ Hd) in Hr.
+  inversion Hr as [Hb]. eapply batches_r_partition. exact Hb.
+Qed.
+
+Lemma pk_inj s n s' n' : n < two64 -> n' < two64 -> pk s n = pk s' n' -> s = s' /\ n = n'.
+Proof.
+  unfold pk. intros Hn Hn' H.
+  assert (Hs : s = s').
+  { assert (A : (s * two64 + n) / two64 = s) by (rewrite N.div_add_l by (unfold two64; lia); rewrite N.div_small by exact Hn; lia).
+    assert (B : (s' * two64 + n') / two64 = s') by (rewrite N.div_add_l by (unfold two64; lia); rewrite N.div_small by exact Hn'; lia).
+    rewrite H in A. congruence. }
+  subst s'. split; [reflexivity | lia].
+Qed.
+
+(* the deliveries of the colliding-keys class: source 1 / nonce 23 found executed, later source 12 / nonce 3
+   pending (same decimal concatenation), in a delivery that is not in ascending nonce order *)
+Definition w_hist : list delivery :=
+  [([mkprop (pk 1 23) None true; mkprop (pk 1 24) None false], [0; 0]);
+   ([mkprop (pk 12 4) None false; mkprop (pk 12 3) (Some 40) false; mkprop (pk 1 23) None true], [0; 0; 0])].
